@@ -79,6 +79,8 @@ CONFIG["C11"] = dict(
                "Group-level facts over an abstract group of prime order with xc(-P)=xc(P): the (r,n-s) twin verifies iff (r,s) does; every signature made with a non-zero nonce verifies. "
                "Executable model (Props.C11Model, Proofs/EcdsaModel over Proofs/CurveGroup): for P-256 and secp256k1, every private key d < n, nonce k < n and hash, a signature returned by the model's signWith is accepted by the model's verifyHash under d*G "
                "(p256_sign_verify, k256_sign_verify): the model's curve arithmetic is Mathlib's group law of the curve, n is prime and annihilates G (kernel-checked), u1 + u2 d = k in ZMod n; non-vacuity example on secp256k1. "
+               "EXACTNESS (p256_verify_iff_signed, k256_verify_iff_signed, Proofs/EcdsaExact): under the public key d*G the model accepts a string on a hash IFF it is the output of signWith for some nonce 0 < k < n "
+               "(the nonce is (e + r d)/s; it is non-zero because verification rejects the point at infinity) - so the accepted set is exactly the set of genuine signatures of the key holder, no more. "
                "That crypto/ecdsa and btcec compute this equation is the correspondence part.",
     level_note="Lean kernel; the verification equation itself is the model (Model.Ecdsa.verifyHash) compared with crypto/ecdsa and btcec",
     assumptions=["hash bytes are produced by the real hashers (tied separately by C13)"],
